@@ -46,6 +46,11 @@
   never after the call completed: completion cancels the recorded  C13_timeout_cancelled_on_completion
     (latest) timer
 
+  yield retry loop (C07's bounded exception): retried at +1, +3, +7 …   C13_retry_enter, C13_retry_turn,
+    ms after the start; gives up (cancels the call) at the first turn    C13_retry_bound, C13_retry_busy
+    ≥ 60000 ms after the start = turn 16 = 65535 ms; meanwhile the
+    callee's handler is busy: its messages are not processed
+
   NOTE on progressive call invocations (several CALL chunks under one request id).  `syncCall` arms a new
   timer on EVERY chunk (with the first chunk's timeout) and overwrites the cancel function stored in the
   invocation; the timer of an earlier chunk is never cancelled (`Ex.sProgT2`: two live timers, deadlines
@@ -62,6 +67,7 @@ import Nexus.L2.Proofs.DealerRealm
 import Nexus.L2.Proofs.DealerTimer
 import Nexus.L2.Proofs.DealerInvoke
 import Nexus.L2.Proofs.DealerExamples
+import Nexus.L2.Proofs.DealerRealmRpc
 
 namespace Nexus.C13
 open Nexus.L2 Nexus.Gen.N Nexus
@@ -218,8 +224,8 @@ theorem C13_forward {env : DEnv} {s : DState} (h : DealerInv s) {caller : SessKe
   rw [syncCall_first args kw hm hne hprog hb hp, firstChunk_ok args kw reg' hr hf]
   refine ⟨rfl, invDetails_get?_timeout .., ?_⟩
   simp only
-  unfold routerTimeout
-  by_cases hc : (decide (optTimeout opts > 0) && !forwardsTimeout env reg callee) = true
+  unfold routerTimeout routerTimeoutF forwardsTimeout
+  by_cases hc : (decide (optTimeout opts > 0) && !forwardsF env reg.fwdTimeout callee) = true
   · rw [if_pos hc, if_pos hc]
     have hpos : 0 < (optTimeout opts).toNat := by
       have : optTimeout opts > 0 := by
@@ -233,24 +239,20 @@ theorem C13_forward {env : DEnv} {s : DState} (h : DealerInv s) {caller : SessKe
 example : forwardsTimeout Ex.env { Ex.regPlain with fwdTimeout := true, callees := [1] } 1 = true := by decide +kernel
 
 /-- A later chunk of a pending progressive call (callee has room) arms a timer again, with the timeout of the
-    FIRST chunk's options, unless forwarded; the previous timer stays in the table untouched. -/
-theorem C13_later_chunk_timer {env : DEnv} {s : DState} (h : DealerInv s) {caller : SessKey} {req : Nat} {opts : Dict}
-    {proc : String} (args : List WVal) (kw : Dict) (rnd : Nat) {reg : Reg} {iid : ReqId} {v0 : Invk}
-    (hm : s.d.matchProcedure proc = some reg) (hb : s.d.byCall? ⟨caller, req⟩ = some iid)
+    FIRST chunk's options, unless the first chunk's registration forwards timeouts (`v0.fwdTimeout`, recorded in
+    the invocation); the previous timer stays in the table untouched. -/
+theorem C13_later_chunk_timer {env : DEnv} {s : DState} {caller : SessKey} {req : Nat} {opts : Dict}
+    (proc : String) (args : List WVal) (kw : Dict) (rnd : Nat) {iid : ReqId} {v0 : Invk}
+    (hb : s.d.byCall? ⟨caller, req⟩ = some iid)
     (hprog : (opts.optFlag OptProgress && !hasFeat env caller RoleCaller FeatureProgCallInvocations) = false)
     (hfi : s.d.findInv iid = some v0) (hf : env.full v0.callee = false) :
     (syncCall env s caller req opts proc args kw rnd).st.timers =
-      (if optTimeout v0.options > 0 && !forwardsTimeout env reg v0.callee
+      (if optTimeout v0.options > 0 && !forwardsF env v0.fwdTimeout v0.callee
        then s.timers ++ [newTimer env s caller req (optTimeout v0.options).toNat] else s.timers) := by
-  have hne : reg.callees.isEmpty = false := by
-    have := (h.reg.regs.callees reg (matchProcedure_mem hm)).1
-    cases hx : reg.callees with
-    | nil => exact absurd hx this
-    | cons _ _ => rfl
-  rw [syncCall_later args kw rnd hm hne hprog hb hfi, laterChunk_ok reg caller req opts args kw iid hf]
+  rw [syncCall_later proc args kw rnd hprog hb hfi, laterChunk_ok caller req opts args kw iid hf]
   simp only
-  unfold routerTimeout
-  by_cases hc : (decide (optTimeout v0.options > 0) && !forwardsTimeout env reg v0.callee) = true
+  unfold routerTimeoutF
+  by_cases hc : (decide (optTimeout v0.options > 0) && !forwardsF env v0.fwdTimeout v0.callee) = true
   · rw [if_pos hc, if_pos hc]
     have hpos : 0 < (optTimeout v0.options).toNat := by
       have : optTimeout v0.options > 0 := by
@@ -352,5 +354,88 @@ theorem C13_timeout_cancelled_on_completion {s : DState} {o : DOut} (h : DealerI
 /-- the timed call of `Ex.sTimed` is answered by its callee: timer 1 is cancelled -/
 example : (syncYield Ex.env Ex.sTimed 1 1 [] [] [] false true).st.timers.map (fun t => (t.id, t.canceled)) = [(1, true)] := by
   decide +kernel
+
+/-! ### the yield retry loop (`dealer.yield`, handler goroutine) -/
+
+/-- A YIELD whose RESULT meets a full caller queue: the handler enters the retry loop — a `Retry` entry in phase 1
+    (first retry 1 ms after the start) — and is busy. -/
+theorem C13_retry_enter (r : Realm) (s : Session) (req : Nat) (opts : Dict) (args : List WVal) (kw : Dict)
+    (ha : (syncYield r.denv r.ds s.key req opts args kw (opts.optFlag OptProgress) true).again = true) :
+    ∃ x, (r.handleYield s req opts args kw).retries = r.retries ++ [x] ∧ x.callee = s.key ∧ x.start = r.now ∧
+      Realm.InPhase x 1 ∧ (r.handleYield s req opts args kw).busy s.key = true :=
+  Realm.handleYield_again r s req opts args kw ha
+
+/-- when does the dealer answer "again": the YIELD is by the owner of a stored invocation, passthru is not misused,
+    the caller's queue is full (and retries are allowed) -/
+example {env : DEnv} {s : DState} (h : DealerInv s) {v : Invk} (hv : v ∈ s.d.invs) (opts : Dict) (args : List WVal)
+    (kw : Dict) (progress : Bool) (hfull : env.full v.callId.sess = true)
+    (h1 : yieldPptCalleeBad env v.id.sess opts = false) (h2 : yieldPptCallerBad env v.callId.sess opts = false) :
+    (syncYield env s v.id.sess v.id.req opts args kw progress true).again = true := by
+  have hf : s.d.findInv ⟨v.id.sess, v.id.req⟩ = some v := (findInv_eq_some h.call.invIds).2 ⟨hv, rfl⟩
+  rw [syncYield_some' h.call opts args kw progress true hf, yieldOut_retry args kw progress v h1 h2 hfull]
+
+example : (syncYield Ex.envCallerFull Ex.sCall 1 1 [] [] [] false true).again = true := by decide +kernel
+
+/-- One turn of the loop, for an entry in phase `n` firing at its time (`r.now = x.next`, which is what
+    `Realm.advance` arranges): retries are still allowed iff `n ≤ 15` (2^n − 1 < 60000).  If the dealer answers
+    "again" (caller still full), the entry moves to phase `n+1` (same start, delay doubled) and the callee stays
+    busy; otherwise the entry is gone. -/
+theorem C13_retry_turn (r : Realm) (x : Retry) (n : Nat) (hp : Realm.InPhase x n) (hnow : r.now = x.next) :
+    decide (r.now - x.start < Realm.sendResultDeadlineMs) = decide (n ≤ 15) ∧
+    ((Realm.retryOut r x).again = true →
+      n ≤ 15 ∧ ∃ x', (r.retryDue x).retries = r.retries.filter (fun y => y.callee != x.callee) ++ [x'] ∧
+        x'.callee = x.callee ∧ x'.start = x.start ∧ Realm.InPhase x' (n + 1) ∧ (r.retryDue x).busy x.callee = true) ∧
+    ((Realm.retryOut r x).again = false →
+      (r.retryDue x).retries = r.retries.filter (fun y => y.callee != x.callee) ∧
+      (r.retryDue x).busy x.callee = false) := by
+  have hcr := Realm.phase_canRetry hp hnow
+  refine ⟨hcr, fun ha => ?_, fun ha => ?_⟩
+  · have h15 : n ≤ 15 := by
+      have := Realm.retryOut_again_canRetry ha
+      rw [hcr] at this
+      simpa using this
+    refine ⟨h15, { x with next := r.now + x.delay * 2, delay := x.delay * 2 },
+      by rw [Realm.retryDue_retries, if_pos ha], rfl, rfl, Realm.phase_next hp hnow, ?_⟩
+    unfold Realm.busy
+    rw [Realm.retryDue_retries, if_pos ha]
+    simp
+  · refine ⟨by rw [Realm.retryDue_retries, if_neg (by simp [ha])], ?_⟩
+    unfold Realm.busy
+    rw [Realm.retryDue_retries, if_neg (by simp [ha])]
+    exact Realm.not_busy_filter _ _
+
+/-- THE BOUND.  An entry in phase `n` fires `2^n − 1` ms after the start of the loop.  In phase 16 — 65535 ms after
+    the start, the first turn at or beyond 60000 ms — retrying is no longer allowed: the dealer is asked with
+    `canRetry = false`, never answers "again", the loop ends and (caller still full, call not yet cancelled) the call
+    is cancelled: its invocation removed, ERROR wamp.error.canceled attempted, the callee interrupted when possible
+    (`C02_full_giveup`).  Phases beyond 16 are never reached (`C13_retry_turn`: phase n+1 only from n ≤ 15). -/
+theorem C13_retry_bound (r : Realm) (x : Retry) (n : Nat) (hp : Realm.InPhase x n) (hnow : r.now = x.next) :
+    x.next + 1 = x.start + 2 ^ n ∧
+    (n ≤ 16 → x.next - x.start ≤ 65535) ∧
+    (n = 16 → x.next - x.start = 65535 ∧ Realm.sendResultDeadlineMs ≤ r.now - x.start ∧
+      Realm.retryOut r x =
+        syncYield r.denv r.ds x.callee x.req x.opts x.args x.kw x.progress false ∧
+      (Realm.retryOut r x).again = false ∧ (r.retryDue x).busy x.callee = false ∧
+      (r.retryDue x).ds = (syncYield r.denv r.ds x.callee x.req x.opts x.args x.kw x.progress false).st) := by
+  obtain ⟨h1, h2, h3⟩ := hp
+  refine ⟨h2, fun hn => ?_, fun hn => ?_⟩
+  · have : 2 ^ n ≤ 2 ^ 16 := Nat.pow_le_pow_right (by omega) hn
+    omega
+  · subst hn
+    have hcr := Realm.phase_canRetry (x := x) (r := r) ⟨h1, h2, h3⟩ hnow
+    have hcr' : decide (r.now - x.start < Realm.sendResultDeadlineMs) = false := by rw [hcr]; rfl
+    have hout : Realm.retryOut r x = syncYield r.denv r.ds x.callee x.req x.opts x.args x.kw x.progress false := by
+      unfold Realm.retryOut; rw [hcr']
+    have hag : (Realm.retryOut r x).again = false := by rw [hout]; exact Realm.syncYield_not_again ..
+    have h16 : (2 : Nat) ^ 16 = 65536 := by decide
+    refine ⟨by omega, ?_, hout, hag, ?_, ?_⟩
+    · simp only [decide_eq_false_iff_not, Nat.not_lt] at hcr'; exact hcr'
+    · exact ((C13_retry_turn r x 16 ⟨h1, h2, h3⟩ hnow).2.2 hag).2
+    · rw [Realm.retryDue_ds, hout]
+
+/-- While the handler of `k` is in the retry loop, messages from `k` are not processed: `stepOp (.msg k m)` is the
+    identity (they wait in the transport; a departure is deferred likewise). -/
+theorem C13_retry_busy (r : Realm) (k : SessKey) (m : Msg) (hb : r.busy k = true) : r.stepOp (.msg k m) = r :=
+  Realm.stepOp_msg_busy r k m hb
 
 end Nexus.C13
